@@ -206,13 +206,13 @@ def run(ctx):
     ctx.assume("walkers whose reference overlap is < 1e-2 of the grid maximum are excluded beforehand (property quantifies over |overlap| bounded away from 0)")
     ctx.assume("tolerances: 1e-9 (float64 formulas), 2e-5 (cisd/ucisd cast one intermediate to complex64), 3e-6 at the default finite-difference step of the AD trials, whose quadratic convergence is checked separately on a step ladder")
     jobs = configs(ctx.tier, ctx.seed)
-    ctx.pmap(job, jobs)
+    ctx.pmap(job, jobs, tasks_per_child=2)
     lad = [dict(kind=k, n=3, na=2, nb=(2 if k in trials.CLOSED_ONLY else 1), variant=("ref:1" if k == "multislater" else ""), seed=ctx.seed, tier=ctx.tier)
            for k in sorted(trials.AUTO_KINDS)]
     if ctx.thorough:
         lad += [dict(kind=k, n=4, na=2, nb=2, variant=("ref:3" if k == "multislater" else ""), seed=ctx.seed, tier=ctx.tier)
                 for k in sorted(trials.AUTO_KINDS)]
-    ctx.pmap(job_eps_ladder, lad)
+    ctx.pmap(job_eps_ladder, lad, tasks_per_child=2)
     ctx.require_guard("grid_points_u", "grid_points_r", "ladder_points_live")
 
 
